@@ -4,8 +4,10 @@ import gens, blk, compcases as cc
 from capi import Lib, Buf
 from ctypes import c_int, byref
 
-THEOREMS = ["C06_fast_generic_strict", "C06_fast_extState_strict", "C06_fastReset_history_strict", "C06_destSize_strict"]
-CORRESPONDENCE = ["Model.FastApi one-shot entry points == liblz4 (bytes, return value, context) on the same cases"]
+THEOREMS = ["C06_fast_generic_strict", "C06_fast_extState_strict", "C06_fastReset_history_strict", "C06_destSize_strict", "C06_hc_mid_strict"]
+CORRESPONDENCE = [cc.MID_CORR,
+                  "Model.FastApi one-shot entry points == liblz4 (bytes, return value, context) on the same cases"]
+ORACLES = ["block", "mid"]
 RULE = ("every successful output of {default, fast, extState, fastReset history, destSize, HC one-shot levels 1..12 (+favorDecSpeed), HC destSize, "
         "fast_continue and HC_continue on contiguous streams (history = previous blocks)} x capacity {bound, bound-1, n, n/2, random} is given to the decoder "
         "extracted from the Coq block specification WITH the end-of-block restrictions (strict_valid) and the right history; "
@@ -16,14 +18,17 @@ ASSUMPTIONS = ["64-bit little-endian target"]
 
 def build(tier):
     from vlib import build_lib
-    return {"lib": build_lib("default")}
+    return {"lib": build_lib("default"), "midstate": cc.midstate_lib()}
 
 def gen_cases(tier, seed):
     rng = random.Random(seed * 31 + 6)
     n = {"quick": 64, "search": 256, "thorough": 600}[tier]
-    return [{"bseed": rng.randrange(1 << 48), "count": 20, "maxn": 70000 if i % 5 == 0 else 4000} for i in range(n)]
+    cases = [{"bseed": rng.randrange(1 << 48), "count": 20, "maxn": 70000 if i % 5 == 0 else 4000} for i in range(n)]
+    cases += cc.mid_gen_cases(rng, tier, 0.5)
+    return cases
 
-worker_init = blk.worker_init
+def worker_init(ctx):
+    return cc.mid_worker(blk.worker_init(ctx), ctx)
 
 def strict(st, hist, out, src):
     a = st["oracle"].ask("strict", blk.hx(hist[-65536:]) if hist else "-", blk.hx(out))
@@ -158,7 +163,16 @@ def one(st, rng, res, info, maxn):
     res["stats"]["fam_" + fam] += 1
     res["stats"]["size_" + ("0-20" if n <= 20 else "21-4095" if n < 4096 else "4K-64K" if n < 65536 else ">=64K")] += 1
 
+def mid_judge(st):
+    def judge(kind, src, cap, r, consumed, out):
+        if r > 0:
+            return strict(st, b"", out, src[:consumed])
+        return None
+    return judge
+
 def run_case(st, case):
+    if case.get("mode") == "hcmid":
+        return cc.run_mid_case(st, case, mid_judge(st))
     rng = random.Random(case["bseed"])
     res = cc.new_res()
     for j in range(case["count"]):
